@@ -197,11 +197,12 @@ def r3(F, rep):
         raise AnalysisBroken("write_traj_files: label/data calls not found")
     for d in dat:
         facts, gs = C.guard_facts(f, d, res)
-        mods = [t for t in facts if t[0] == "cmp" and t[1] == "==" and t[3] == "0" and "% " in t[2] and "cv_traj_freq" in t[2]]
+        mods = [t for t in facts if t[0] == "cmp" and t[1] == "==" and t[3] == "0" and "% " in t[2] and "cv_traj_freq" in t[2]
+                and "colvarmodule::step_absolute()" in t[2] and "step_relative" not in t[2]]
         other = [(X.text(f.nodes[c], f), p) for c, p in f.cfg.real_guards(d)
                  if "cv_traj_freq" not in X.key(f.nodes[c], f) and "cv_traj_os" not in X.key(f.nodes[c], f)]
         rep.add("C19-R3", "data|schedule", f.loc(d), "the data line is written %s" % (
-            "exactly when step %% cv_traj_freq == 0" if mods and not other else "under a different condition: %s %s" % (mods, other)),
+            "exactly when step_absolute() %% cv_traj_freq == 0" if mods and not other else "under a different condition: %s %s" % (mods, other)),
             bool(mods) and not other, func=f.q)
         ok = all(f.cfg.can_reach(l, d) and not f.cfg.can_reach(d, l) for l in lab)
         rep.add("C19-R3", "label-before-data", f.loc(d), "the label line precedes the data line of the same step", ok, func=f.q)
